@@ -587,6 +587,24 @@ func checkC16(c *Check) {
 						if strings.Contains(evs, "AccAddressFromBech32("+o+".Owner)") {
 							okid = true
 						}
+						// the expression the persisted object's id field was initialised with, written out again
+						ctorCall := inner
+						if len(inner.Call.Args) > 0 && calleeMethod(inner) == "ToSDKEvent" {
+							if cc, _ := callOf(inner.Call.Args[0]); cc != nil {
+								ctorCall = cc
+							}
+						}
+						if len(ctorCall.Call.Args) > 0 {
+							idArg := Sym(ctorCall.Call.Args[0])
+							eachInstr(fn, func(i ssa.Instruction) {
+								if st, isS := i.(*ssa.Store); isS {
+									a := Sym(st.Addr)
+									if strings.HasPrefix(a, "&"+o+".") && strings.HasSuffix(a, "ID") && !strings.Contains(strings.TrimPrefix(a, "&"+o+"."), ".") && Sym(st.Val) == idArg {
+										okid = true
+									}
+								}
+							})
+						}
 					}
 					c.Ob("R3", fnName(fn)+": "+ev+" identifies the persisted object", e.Pos(), okid, "event built from "+short(evs)+" but the persisted object is "+es[0].obj)
 				}
